@@ -471,8 +471,11 @@ def lemma_rule(ctx, res, rule, exact=True):
         outs = it.run(st)
         return outs, ranges
 
-    def check(name_rx, mk_self, expect, label):
+    def check(name_rx, mk_self, expect, label, optional=False):
         insts = [i for i in P.inst if re.search(name_rx, i["name"])]
+        if not insts and optional:
+            res.infos.append("%s: %s is not part of the printing program (the indentation characters are written elsewhere): covered by the IndentBy grid" % (rule, label))
+            return
         if len(insts) != 1:
             res.violation(rule, "%s/%s/missing" % (rule, label), "instance %s not found (anchor lost)" % name_rx)
             return
@@ -516,7 +519,60 @@ def lemma_rule(ctx, res, rule, exact=True):
         unit = Top(None, "unit")
         return Agg(ty_of(inst), 0, (unit, n)), n
 
-    check(r"^<json_syntax::print::IndentBy as std::fmt::Display>::fmt$", indentby_self, lambda s: ("unit", s.fields[0]), "IndentBy")
+    # IndentBy(unit, k): decided on a grid of concrete units and depths, with the unit's own Display interpreted too (so it
+    # does not matter whether IndentBy loops over the unit's Display or writes the characters itself): the text written is
+    # n*k spaces for Spaces(n), n*k tabs for Tabs(n); for C04 (exact=False) only "nothing but JSON whitespace" is demanded
+    def indentby_grid():
+        insts = [i for i in P.inst if re.search(r"^<json_syntax::print::IndentBy as std::fmt::Display>::fmt$", i["name"])]
+        it_ty_ = [t for t in P.types if t.get("name") == "json_syntax::print::Indent"]
+        if len(insts) != 1 or not it_ty_:
+            res.violation(rule, "%s/IndentBy/missing" % rule, "IndentBy's Display or the Indent type not found (anchor lost)")
+            return
+        inst = insts[0]
+        vnames = [v["name"] for v in it_ty_[0]["variants"]]
+        for vname_, ch in (("Spaces", " "), ("Tabs", "\t")):
+            for n in (0, 1, 2):
+                for k in (0, 1, 3):
+                    key = "%s/IndentBy/%s(%d)x%d" % (rule, vname_, n, k)
+                    try:
+                        it = tables.mk(P)
+                        st = State()
+
+                        def rnext(it_, st_, i_, args, call):
+                            rty = ret_ty(it_, call)
+                            r = it_.read_path(st_, args[0].base, args[0].proj)
+                            if not (isinstance(r, Agg) and all(isinstance(x, Conc) for x in r.fields)):
+                                raise Undecided("range with non-constant bounds %r" % (r,))
+                            lo, hi = r.fields[0].v, r.fields[1].v
+                            if lo >= hi:
+                                return mk_none(rty)
+                            it_.write_path(st_, args[0].base, args[0].proj, Agg(r.ty, r.variant, (Conc(lo + 1), Conc(hi))))
+                            return mk_some(rty, Conc(lo))
+
+                        it.summaries.insert(0, (lambda i_: bool(re.search(r"impl std::iter::Iterator for std::ops::Range<(usize|u8)>>::next$", i_["name"])), rnext))
+                        selfval = Agg(ty_of(inst), 0, (Agg(it_ty_[0]["id"], vnames.index(vname_), (Conc(n),)), Conc(k)))
+                        cell = st.new_obj(selfval)
+                        it.push_frame(st, inst["id"], [Ref(("H", cell.id), ()), Top(None, "f")], None, None)
+                        outs = it.run(st)
+                        rets = [o for o in outs if o.outcome[0] == "return"]
+                        ok = len(outs) == 1 and len(rets) == 1
+                        text = None
+                        if ok:
+                            ev = [tuple(e) for e in rets[0].events]
+                            if all(e[0] == "w" and isinstance(e[1], Str) for e in ev):
+                                text = "".join(e[1].s for e in ev)
+                            else:
+                                ok = False
+                        if exact:
+                            res.ob(ok and text == ch * (n * k), rule, key, "IndentBy(%s(%d), %d) writes %r, expected %r" % (vname_, n, k, text, ch * (n * k)),
+                                   sample={"lemma": "IndentBy", "unit": "%s(%d)" % (vname_, n), "depth": k} if (n, k) == (2, 3) else None)
+                        else:
+                            res.ob(ok and text.strip(" \t\n\r") == "", rule, key, "IndentBy(%s(%d), %d) writes something other than JSON whitespace: %r" % (vname_, n, k, text))
+                    except Undecided as e:
+                        res.violation(rule, key + "/undecided", "undecided: %s" % e)
+        res.count("lemmas")
+
+    indentby_grid()
 
     def indent_self(variant):
         def f(inst):
@@ -527,9 +583,9 @@ def lemma_rule(ctx, res, rule, exact=True):
     it_ty = [t for t in P.types if t.get("name") == "json_syntax::print::Indent"]
     if it_ty:
         vn = [v["name"] for v in it_ty[0]["variants"]]
-        check(r"^<json_syntax::print::Indent as std::fmt::Display>::fmt$", indent_self(vn.index("Spaces")), lambda s: ("w", Str(" ")), "Indent::Spaces")
-        check(r"^<json_syntax::print::Indent as std::fmt::Display>::fmt$", indent_self(vn.index("Tabs")), lambda s: ("w", Str("\t")), "Indent::Tabs")
-    res.floor(rule, "lemmas", 4)
+        check(r"^<json_syntax::print::Indent as std::fmt::Display>::fmt$", indent_self(vn.index("Spaces")), lambda s: ("w", Str(" ")), "Indent::Spaces", optional=True)
+        check(r"^<json_syntax::print::Indent as std::fmt::Display>::fmt$", indent_self(vn.index("Tabs")), lambda s: ("w", Str("\t")), "Indent::Tabs", optional=True)
+    res.floor(rule, "lemmas", 2)
 
 
 # ---- presets ---------------------------------------------------------------------------------------------------------------------
